@@ -49,3 +49,8 @@ add('C18', 'exploration', 'algebraic-law and Go-equality monitor over generated 
     'Hundreds of thousands of generated (pattern, argument) pairs per run over all kinds named by the statement, boundary values and nils; Equals is compared with Go ==/DeepEqual/identity, checked for symmetry, In against the union of Equals, Any for totality, re-evaluation for stability, all under recover; a subset runs through real patched functions.',
     'NaN, +-0 pairs, cross-type coercions and distinct closures of one literal are outside the statement and not generated.',
     'DESIGN.md 2 C18')
+
+add('C08', 'exploration', 'memory-image monitor of mocked variables after every step of generated Set/Apply/Cancel/Reset histories',
+    'For 23 variable types x exported/unexported addressing, generated histories are run through the public API; after every step the variable\'s raw memory and a reader in the defining package are compared with the model (mocked value / pre-mock snapshot), and a panic out of Cancel/Reset counts as a violation. Histories are sampled (0-4 sets, 1-2 cancels, repeated lookups).',
+    'Unexported interface-typed variables are observed on raw memory only and repaired by the harness (known finding).',
+    'DESIGN.md 2 C08')
